@@ -7,7 +7,24 @@ from ..engine import FamilySpec
 from ..builtin_contracts import SDict, NumBase
 from .common import *
 from .numeric import ambient_name, expr_child, variable_arg
-from .structure import tokenize, parse_call, atom_denotes, tagged
+from .structure import tokenize, parse_call, atom_denotes, tagged, structural_value
+
+
+def point_value(cz, I, p):
+    if isinstance(p, Obj) and getattr(p.cls, "name", None) == "Point":
+        return {"point": cz.point_of(p)}
+    return structural_value(cz, I, p)
+
+
+def wrapper_value(cz, I, kind, parts):
+    if parts is None:
+        return None
+    v = {"wrapper": kind, "e": structural_value(cz, I, parts["e"])}
+    if "name" in parts:
+        v["name"] = cz.name_str(parts["name"])
+    if "pt" in parts:
+        v["pt"] = cz.point_of(parts["pt"])
+    return v
 
 STRUCT_CONTRACTS = ("__eq__", "__hash__", "__str__", "__repr__")
 
@@ -91,6 +108,8 @@ def fam_point_eq():
                 p = H.make_point(I, "p")
                 q = H.make_point(I, "q") if variant == "Point" else tagged(I, variant, "other")
                 I.ghost.update({"p": p, "q": q})
+                I.ghost["replay"] = {"kind": "point_eq_hash", "root": None, "pt": None, "x": None,
+                                     "extra": {"b": lambda cz: point_value(cz, I, q), "a": lambda cz: point_value(cz, I, p)}}
                 return lambda: I.call_funcdef(fd, [p, q], {})
 
             def post(I, res, emit, variant=variant):
@@ -122,6 +141,8 @@ def fam_point_hash():
         def setup(I):
             p, q = H.make_point(I, "p"), H.make_point(I, "q")
             I.ghost.update({"p": p, "q": q})
+            I.ghost["replay"] = {"kind": "point_eq_hash", "root": None, "pt": None, "x": None,
+                                 "extra": {"b": lambda cz: point_value(cz, I, q), "a": lambda cz: point_value(cz, I, p)}}
             return lambda: (I.call_funcdef(fd, [p], {}), I.call_funcdef(fd, [q], {}))
 
         def post(I, res, emit):
@@ -158,6 +179,8 @@ def fam_point_repr(k, method):
         def setup(I):
             pt = concrete_point(I, k)
             I.ghost["pt"] = pt
+            I.ghost["replay"] = {"kind": "value_repr", "root": None, "pt": None, "x": None,
+                                 "extra": {"a": lambda cz: point_value(cz, I, pt)}}
             return lambda: I.call_funcdef(fd, [pt], {})
 
         def post(I, res, emit):
@@ -260,6 +283,10 @@ def fam_wrapper_eq(kind):
                 else:
                     b, pb = tagged(I, variant, "b"), None
                 I.ghost.update({"a": a, "pa": pa, "b": b, "pb": pb})
+                bk = kind if variant == "same" else ([w for w in WRAPPERS if w != kind][0] if variant == "other-wrapper" else None)
+                I.ghost["replay"] = {"kind": "wrapper_eq_hash", "root": None, "pt": None, "x": None,
+                                     "extra": {"a": lambda cz: wrapper_value(cz, I, kind, pa),
+                                               "b": lambda cz: (wrapper_value(cz, I, bk, pb) if pb is not None else structural_value(cz, I, b))}}
                 return lambda: I.call_funcdef(fd, [a, b], {})
 
             def post(I, res, emit, variant=variant):
@@ -292,6 +319,8 @@ def fam_wrapper_hash(kind):
             a, pa = build_wrapper(I, kind, "a")
             b, pb = build_wrapper(I, kind, "b")
             I.ghost.update({"pa": pa, "pb": pb})
+            I.ghost["replay"] = {"kind": "wrapper_eq_hash", "root": None, "pt": None, "x": None,
+                                 "extra": {"a": lambda cz: wrapper_value(cz, I, kind, pa), "b": lambda cz: wrapper_value(cz, I, kind, pb)}}
             return lambda: (I.call_funcdef(fd, [a], {}), I.call_funcdef(fd, [b], {}))
 
         def post(I, res, emit):
@@ -316,6 +345,8 @@ def fam_wrapper_repr(kind, method):
         def setup(I):
             a, pa = build_wrapper(I, kind, "a")
             I.ghost.update({"a": a, "pa": pa})
+            I.ghost["replay"] = {"kind": "value_repr", "root": None, "pt": None, "x": None,
+                                 "extra": {"a": lambda cz: wrapper_value(cz, I, kind, pa)}}
             return lambda: I.call_funcdef(fd, [a], {})
 
         def post(I, res, emit):
